@@ -289,7 +289,7 @@ GenAlphabet == %s
 GenPrefixLen == %d
 GenSuffixLen == %d
 GenLimits == %s
-GenParamValues == { <<"a">>, <<"a","b">> }
+GenParamValues == { <<"a">>, <<"a","b">>, <<"A","b">> }
 GenCatchValues == { <<"a","/","b">> }
 ====
 `, tlaCharSet(patternAlphabet), pre, suf, tlaLimits(patLimits))
